@@ -369,7 +369,7 @@ class SerialEngine(Engine):
         # subclasses of int / str / float that inherit the base repr (their text is the base literal), alone and inside containers
         dict(base, ops=[['bind', 'f.a', ['eqv', 'intplain', ['i', 3]]], ['bind', 'f.b', ['i', 3]], ['bind', 'g.a', ['eqv', 'strplain', ['s', 'run']]],
                         ['bind', 'g.b', ['l', [['eqv', 'floatplain', ['float', '1.5']], ['i', 1]]]],
-                        ['bind', 'g.c', ['d', [[['eqv', 'strplain', ['s', 'k']], ['i', 1]]]]]]),
+                        ['bind', 'g.c', ['d', [[['eqv', 'strplain', ['s', 'k']], ['i', 1]]]]], ['bind', 'g.zeta', ['i', 1]]]),
     ]
 
   def gen(self, rng, tier):
@@ -1227,4 +1227,75 @@ class CornerEngine(Engine):
     return {'obs': obs, 'fails': fails[:3], 'nontrivial': 'parse-error' not in tags, 'tags': [case['kind']] + tags}
 
 
-ENGINES = [SerialEngine(), ValueTextEngine(), DynStrEngine(), CornerEngine()]
+class AtomModelEngine(Engine):
+  """coq/Model/StrLit.v (what repr writes for a str / bytes / int and what ast.literal_eval reads from ONE atom text)
+  against CPython itself: harness/atoms/atoms.py generates values and literal texts (valid and malformed), and coqc
+  evaluates the model on them.  This validates the model of the EXTERNAL functions that Props/AtomRoundTrip.v is about
+  (gin calls repr and ast.literal_eval; they are not gin code), so a disagreement here says the atom theorems are about
+  the wrong functions.  One case = one seed of that generator."""
+  name = 'atom-model'
+  model = False
+
+  def budget(self, tier):
+    return 0 if tier == 'quick' else 4
+
+  def corpus(self):
+    return [{'seed': 0, 'n': 120}]
+
+  def gen(self, rng, tier):
+    return {'seed': rng.randrange(1, 10 ** 6), 'n': 400}
+
+  def impl(self, case):
+    import os
+    import subprocess
+    work = os.path.join(C.WORK, 'atoms_%d' % case['seed'])
+    p = subprocess.run([sys.executable, '-B', os.path.join(C.VERIF, 'harness', 'atoms', 'atoms.py'), '--seed', str(case['seed']),
+                        '--n', str(case['n']), '--coq', C.COQ, '--work', work], capture_output=True, text=True, timeout=1500)
+    out = p.stdout + p.stderr
+    fails = []
+    if p.returncode != 0:
+      bad = [l for l in out.split('\n') if 'DISAGREE' in l or 'FAILED' in l or 'cannot read' in l]
+      fails.append(('atom-model-disagrees-with-cpython', '; '.join(bad[:5]) or out[-600:]))
+    import re as _re
+    m = _re.search(r'seed \d+: (\d+) cases', out)
+    return {'obs': T('Atoms', int(m.group(1)) if m else 0), 'fails': fails, 'nontrivial': bool(m and int(m.group(1)) > 100),
+            'tags': ['atom-cases:%s' % (m.group(1) if m else '?')]}
+
+
+class PPrintModelEngine(Engine):
+  """coq/Model/PPrint.v against the real thing, text for text: `pformat w v` against pprint.pformat(value, width=w) of
+  CPython, and `format_binding maxlen indent key v` against the binding lines of gin.config_str(maxlen, indent) on
+  /repo's current source (harness/pprintm/pprint_corr.py: generated literal trees of depth <= 5, widths 1 .. 120).
+  One case = one seed of that generator.  Strings / bytes that pprint would split are left out (not modelled)."""
+  name = 'pprint-model'
+  model = False
+
+  def budget(self, tier):
+    return 0 if tier == 'quick' else 4
+
+  def corpus(self):
+    return [{'seed': 0, 'n': 300, 'nbind': 150}]
+
+  def gen(self, rng, tier):
+    return {'seed': rng.randrange(1, 10 ** 6), 'n': 1500, 'nbind': 400}
+
+  def impl(self, case):
+    import os
+    import re as _re
+    import subprocess
+    env = dict(os.environ, PYTHONPATH=C.REPO + os.pathsep + C.VERIF)
+    p = subprocess.run([sys.executable, '-B', os.path.join(C.VERIF, 'harness', 'pprintm', 'pprint_corr.py'), '--seeds', str(case['seed']),
+                        '--n', str(case['n']), '--nbind', str(case['nbind']), '--coq', C.COQ], capture_output=True, text=True,
+                       timeout=1500, env=env)
+    out = p.stdout + p.stderr
+    fails = []
+    if p.returncode != 0:
+      bad = [l.strip() for l in out.split('\n') if 'DISAGREE ' in l and 'TOTAL' not in l and 'cases' not in l]
+      kind = 'format-binding-differs-from-model' if any('format_binding' in b for b in bad) else 'pformat-model-disagrees-with-cpython'
+      fails.append((kind, '; '.join(bad[:4]) or out[-800:]))
+    m = _re.findall(r'cases (\d+)', out)
+    n = sum(int(x) for x in m)
+    return {'obs': T('PPrint', n), 'fails': fails, 'nontrivial': n > 100, 'tags': ['pprint-cases:%d' % n]}
+
+
+ENGINES = [SerialEngine(), ValueTextEngine(), DynStrEngine(), CornerEngine(), AtomModelEngine(), PPrintModelEngine()]
